@@ -324,6 +324,22 @@ func (c *FnCtx) lookup(env *Env, name string) Val {
 	panic(specError("unknown name " + name))
 }
 
+func (c *FnCtx) tryLookup(env *Env, name string) (v Val, ok bool) {
+	if strings.Contains(name, ".") {
+		return Val{}, false
+	}
+	defer func() {
+		if r := recover(); r != nil {
+			if _, isSpec := r.(specError); isSpec {
+				ok = false
+				return
+			}
+			panic(r)
+		}
+	}()
+	return c.lookup(env, name), true
+}
+
 func (c *FnCtx) ptrLocNoCheck(p Val) *Loc {
 	if p.Loc != nil {
 		return p.Loc
@@ -635,6 +651,29 @@ func (c *FnCtx) evalCall(env *Env, x *ECall) Val {
 	}
 	if v, ok := c.eng.evalGhostCall(c, env, x); ok {
 		return v
+	}
+	// application of a callback value that is declared pure: the same uninterpreted function the code's call uses
+	if fv, ok := c.tryLookup(env, x.Fun); ok && fv.T != nil {
+		if sig, isSig := fv.T.Underlying().(*types.Signature); isSig {
+			cb := c.eng.callbackSpec(fv.T)
+			if cb == nil || !cb.Pure {
+				panic(specError("call of function value " + x.Fun + " whose type has no 'callback ...: pure' declaration"))
+			}
+			all := []Val{{T: fv.T, E: fv.E}}
+			for i := range x.Args {
+				a := arg(i)
+				if i < sig.Params().Len() {
+					pt := sig.Params().At(i).Type()
+					if a.E == "NIL" {
+						a = Val{T: pt, E: c.ty.Zero(pt)}
+					}
+					a.T = pt
+				}
+				all = append(all, a)
+			}
+			r := c.uninterp(nil, "cb$"+cb.Name, all, sig.Results())
+			return *r
+		}
 	}
 	// user-defined pure spec functions (macro expansion)
 	pf := c.eng.specs.Pures[env.specPkg+"."+x.Fun]
